@@ -21,9 +21,15 @@ Theorem markers_iff t us f M m :
   first_has (l_decls f) = Some M ->
   (In m (check_markers t us f) <->
    (m = "io" /\ has_io M = false /\ l_has_self f = false /\ has_returns (l_body f) = false) \/
-   (In m (get_markers t us (l_body f)) /\ linter_covers M m = false)).
+   (exists m0, In m0 (get_markers t us (l_body f)) /\ linter_covers M m0 = false /\ m = linter_canon m0)).
 Proof.
-  intro H. unfold check_markers. rewrite H. unfold undeclared_markers. rewrite in_app_iff, filter_In, negb_true_iff.
+  intro H. unfold check_markers. rewrite H. unfold undeclared_markers. rewrite in_app_iff, in_map_iff.
+  assert (Hf : (exists x, linter_canon x = m /\ In x (filter (fun m => negb (linter_covers M m)) (get_markers t us (l_body f)))) <->
+               (exists m0, In m0 (get_markers t us (l_body f)) /\ linter_covers M m0 = false /\ m = linter_canon m0)).
+  { split; intros [x Hx]; exists x.
+    - destruct Hx as [E Hin]. apply filter_In in Hin. destruct Hin as [Hin Hc]. apply negb_true_iff in Hc. auto.
+    - destruct Hx as [Hin [Hc E]]. split; [auto|]. apply filter_In. split; [exact Hin|]. apply negb_true_iff. exact Hc. }
+  rewrite Hf.
   destruct (has_io M), (l_has_self f), (has_returns (l_body f)); cbn; intuition congruence.
 Qed.
 (* without a declaration of the family nothing is reported *)
@@ -82,9 +88,9 @@ Lemma has_io_mono M M' : incl M M' -> has_io M = true -> has_io M' = true.
 Proof.
   unfold has_io. intros Hi H. apply existsb_exists in H. destruct H as [y [Hy E]]. apply existsb_exists. exists y. split; [apply Hi; exact Hy|exact E].
 Qed.
-Lemma covers_mono M M' m : incl M M' -> linter_covers M m = true -> linter_covers M' m = true.
+Lemma covers_canon_mono M M' m : incl M M' -> linter_covers_canon M m = true -> linter_covers_canon M' m = true.
 Proof.
-  intros Hi. unfold linter_covers, has_property.
+  intros Hi. unfold linter_covers_canon, has_property.
   repeat match goal with |- context [if String.eqb m ?s then _ else _] => destruct (String.eqb m s) end;
     try (apply has_io_mono; exact Hi); try (apply has_marker_mono; exact Hi);
     unfold has_network, has_stdout, has_stderr, has_global, has_read, has_stdin, has_syscall, has_write;
@@ -107,14 +113,22 @@ Proof.
            | E : has_marker ?x M = true, E' : has_marker ?x M' = false |- _ => rewrite (has_marker_mono x M M' Hi E) in E'; discriminate
            end.
 Qed.
+Lemma covers_mono M M' m : incl M M' -> linter_covers M m = true -> linter_covers M' m = true.
+Proof. unfold linter_covers. apply covers_canon_mono. Qed.
+(* a marker declared (by a callee, a stub) under another name is judged as the marker itself *)
+Theorem alias_markers M :
+  linter_covers M "print" = linter_covers M "stdout" /\ linter_covers M "socket" = linter_covers M "network" /\
+  linter_covers M "input" = linter_covers M "stdin" /\ linter_covers M "nonlocal" = linter_covers M "global".
+Proof. repeat split; reflexivity. Qed.
 Theorem markers_monotone t us f M M' :
   incl M M' -> incl (undeclared_markers t us f M') (undeclared_markers t us f M).
 Proof.
   intros Hi m Hin. unfold undeclared_markers in *. apply in_app_iff in Hin. apply in_app_iff. destruct Hin as [Hin|Hin].
   - left. destruct (has_io M') eqn:E'; cbn in Hin; [destruct Hin|].
     destruct (has_io M) eqn:E; [rewrite (has_io_mono _ _ Hi E) in E'; discriminate|exact Hin].
-  - right. apply filter_In in Hin. destruct Hin as [Hin Hc]. apply filter_In. split; [exact Hin|].
-    apply negb_true_iff in Hc. apply negb_true_iff. destruct (linter_covers M m) eqn:E; [|reflexivity].
+  - right. apply in_map_iff in Hin. destruct Hin as [x [Ex Hin]]. apply in_map_iff. exists x. split; [exact Ex|].
+    apply filter_In in Hin. destruct Hin as [Hin Hc]. apply filter_In. split; [exact Hin|].
+    apply negb_true_iff in Hc. apply negb_true_iff. destruct (linter_covers M x) eqn:E; [|reflexivity].
     rewrite (covers_mono _ _ _ Hi E) in Hc. discriminate.
 Qed.
 
